@@ -111,6 +111,8 @@ ObsVerdict(s, c, o) ==
   ELSE IF Has(o, "graphs") /\ ~NoDup(o.graphs) THEN "NoDuplicates"
   ELSE IF Has(o, "member") /\ \E i \in 1..Len(o.member) :
             o.member[i].r # (Tup3(o.member[i].q) \in DView(G, c, o.member[i].q[4])) THEN "QuadMembership"
+  ELSE IF Has(o, "tmember") /\ \E i \in 1..Len(o.tmember) :
+            o.tmember[i].r # (Tup3(o.tmember[i].t) \in DView(G, c, DEFAULT)) THEN "TripleMembership"
   ELSE IF Has(o, "ctxq") /\ \E i \in 1..Len(o.ctxq) :
             SeqToSet(o.ctxq[i].r) # Sel(DView(G, c, o.ctxq[i].g), o.ctxq[i].p) THEN "NoFallback"
   ELSE IF Has(o, "union") /\ \E i \in 1..Len(o.union) :
